@@ -248,7 +248,7 @@ var c04Profile = &sim.Profile{
 func init() {
 	register(&Check{
 		ID: "C04", Level: "exploration",
-		Rule: "histories of successes, failures on each path (password, OTP, TOTP code, SMS code, recovery code), manual lock/unlock and clock advances drawn from {1s,9s,10s,11s,1m, W-1ns, W, W+1ns, W±1s, 3W, D-1ns, D, D+1ns, D±1s, 3D} for LockAfter in {1,2,3,5} and window/duration in {3ns..2h}x{2ns..12h}, 2-3 accounts interleaved. An independent automaton (count,last,lockedUntil) written from the statement is driven by the same history; after every request that touches an account the stored (AttemptCount, Locked>now, Locked) must equal the automaton's. distinct_nontrivial = distinct (path, class, LockAfter, gap class relative to LockWindow, lock phase, count transition) signatures.",
+		Rule:  "histories of successes, failures on each path (password, OTP, TOTP code, SMS code, recovery code), manual lock/unlock and clock advances drawn from {1s,9s,10s,11s,1m, W-1ns, W, W+1ns, W±1s, 3W, D-1ns, D, D+1ns, D±1s, 3D} for LockAfter in {1,2,3,5} and window/duration in {3ns..2h}x{2ns..12h}, 2-3 accounts interleaved. An independent automaton (count,last,lockedUntil) written from the statement is driven by the same history; after every request that touches an account the stored (AttemptCount, Locked>now, Locked) must equal the automaton's. distinct_nontrivial = distinct (path, class, LockAfter, gap class relative to LockWindow, lock phase, count transition) signatures.",
 		Units: func(t string) int { return tierN(t, 1500, 100000) },
 		Run: func(c *RunCtx, unit int) {
 			r := Rng(c.Seed, "C04", unit)
